@@ -1052,6 +1052,14 @@ func (rl *Shell) shellBackwardKillWord() {
 	rl.cursor.ToFirstNonSpace(true)
 	bpos = rl.cursor.Pos()
 
+	// No shell word starts before the cursor: nothing to kill.
+	if bpos >= startPos {
+		rl.cursor.Set(startPos)
+		rl.selection.Reset()
+
+		return
+	}
+
 	rl.Buffers.Write([]rune((*rl.line)[bpos:startPos])...)
 	rl.line.Cut(bpos, startPos)
 	rl.selection.Reset()
